@@ -1,4 +1,5 @@
 mod c01;
+mod c11;
 mod ctx;
 mod drv;
 mod gen;
@@ -15,6 +16,7 @@ fn arg<'a>(args: &'a [String], name: &str) -> Option<&'a str> {
 fn dispatch_run(prop: &str, ctx: &mut Ctx) -> bool {
     match prop {
         "C01" => c01::run(ctx),
+        "C11" => c11::run(ctx),
         _ => return false,
     }
     true
@@ -23,6 +25,7 @@ fn dispatch_run(prop: &str, ctx: &mut Ctx) -> bool {
 fn dispatch_replay(prop: &str, ctx: &mut Ctx, scenario: &Value) -> Result<(), String> {
     match prop {
         "C01" => c01::replay(ctx, scenario),
+        "C11" => c11::replay(ctx, scenario),
         _ => Err(format!("no replay for {prop}")),
     }
 }
